@@ -729,7 +729,7 @@ package statefulset
 //@   ghost var gSyncErr error
 //@   at call Get#1 after: ghost gKey = ifaceStr(item)
 //@   at call sync#1 after: ghost gSyncErr = result
-//@   modifies gAddRL, gForget, gDone, gEnq, gApiFails, gWrites, gPodTouch, gCtlFails, gStatusWrites, gRevCreates, gRevUpdates, gRevDeleted, gRevDelCount, gAlloc0, gTmplLo, gTmplHi, gNewRev, gRevAdopts, gConfirmed, gPermErr, gAdopts, gReleases, gClaimSrc, gLocalFail
+//@   modifies gAddRL, gForget, gDone, gEnq, gApiFails, gWrites, gPodTouch, gCtlFails, gStatusWrites, gRevCreates, gRevUpdates, gRevDeleted, gRevDelCount, gTrimRan, gTrimLen, gAlloc0, gTmplLo, gTmplHi, gNewRev, gRevAdopts, gConfirmed, gPermErr, gAdopts, gReleases, gClaimSrc, gLocalFail
 //@   ensures [C09,C16] requeue: result && gSyncErr != nil ==> gAddRL[gKey] && gForget == old(gForget)
 //@   ensures [C09,C16] forget: result && gSyncErr == nil ==> gForget[gKey] && gAddRL == old(gAddRL)
 //@   ensures [C16] done: result ==> gDone[gKey]
@@ -764,6 +764,8 @@ package statefulset
 // truncateHistory: the property is the precondition of the revision Delete call (caller-specific contract).
 //@ ghost global gRevDeleted set[string]   -- names of revisions for which a delete was issued
 //@ ghost global gRevDelCount int
+//@ ghost global gTrimRan bool           -- the history was trimmed in this reconcile
+//@ ghost global gTrimLen int            -- over this many revisions
 //@ spec func liveName(name string, current *kubeapps.ControllerRevision, update *kubeapps.ControllerRevision, pods []*v1.Pod) bool = name == current.Name || name == update.Name || (exists k int :: {pods[k]} 0 <= k && k < len(pods) && revOf(pods[k]) == name)
 
 //@ func defaultStatefulSetControl.truncateHistory
@@ -775,12 +777,13 @@ package statefulset
 //@   requires revsvalid: forall i int :: {revisions[i]} 0 <= i && i < len(revisions) ==> revisions[i] != nil
 //@   profile defaulted requires revsours: forall i int :: {revisions[i]} 0 <= i && i < len(revisions) ==> revOurs(revisions[i], set)
 //@   profile defaulted requires revsonce: forall a int, b int :: {revisions[a], revisions[b]} 0 <= a && a < b && b < len(revisions) ==> revisions[a].Name != revisions[b].Name
-//@   at entry: ghost gRevDeleted = emptyset(); ghost gRevDelCount = 0
+//@   at entry: ghost gRevDeleted = emptyset(); ghost gRevDelCount = 0; ghost gTrimRan = true; ghost gTrimLen = len(revisions)
 //@   ghost var unusedI set[int] = emptyset()   -- indices of revisions that are not live
 //@   ghost var hidx map[int]int                -- index in revisions of history[m]
 //@   at call append#1 before: ghost hidx[len(history)] = i
 //@   at loopend 2: ghost unusedI[i - 1] = !liveName(revisions[i - 1].Name, current, update, pods)
-//@   modifies gRevDeleted, gRevDelCount, gWrites, gApiFails
+//@   modifies gRevDeleted, gRevDelCount, gTrimRan, gTrimLen, gWrites, gApiFails
+//@   ensures [C13] ran: gTrimRan && gTrimLen == len(revisions)
 //@   ensures [C09] reported: gApiFails > old(gApiFails) ==> result != nil
 //@   ensures [C09] origin: result != nil ==> gApiFails > old(gApiFails)
 //@   profile defaulted ensures [C13] trimmed: result == nil ==> count(unusedI, 0, len(revisions)) - gRevDelCount <= deref(set.Spec.RevisionHistoryLimit)
@@ -1038,6 +1041,9 @@ package statefulset
 //@   profiles defaulted, crd
 //@   params ssc, set, pods
 //@   lemmas count_bound
+//@   ghost var listed int = 0               -- how many revisions the history listing returned
+//@   at entry: ghost gTrimRan = false
+//@   at call SortControllerRevisions#1 before: ghost listed = len(revisions)
 //@   requires ssc != nil && set != nil && ssc.podControl != nil && ssc.recorder != nil && ssc.csAppsV1 != nil && ssc.statusUpdater != nil
 //@   requires set.Spec.Replicas != nil && deref(set.Spec.Replicas) >= 0 && set.Spec.RevisionHistoryLimit != nil && deref(set.Spec.RevisionHistoryLimit) >= 0 && set.Spec.Selector != nil
 //@   requires slotsbound: deref(set.Spec.Replicas) + card(slotsAnn(ifaceOf(set, "*apps.StatefulSet"))) <= MaxInt32
@@ -1047,12 +1053,13 @@ package statefulset
 //@   requires snapphase: forall k int :: {pods[k]} 0 <= k && k < len(pods) ==> isCreatedS(pods[k])
 //@   profile defaulted requires set.Spec.UpdateStrategy.Type == "RollingUpdate" || set.Spec.UpdateStrategy.Type == "OnDelete"
 //@   profile defaulted requires storedvalid: set.Status.ObservedGeneration <= set.Generation
-//@   modifies gApiFails, gWrites, gPodTouch, gCtlFails, gStatusWrites, gRevCreates, gRevUpdates, gRevDeleted, gRevDelCount, gAlloc0, gTmplLo, gTmplHi, gNewRev
+//@   modifies gApiFails, gWrites, gPodTouch, gCtlFails, gStatusWrites, gRevCreates, gRevUpdates, gRevDeleted, gRevDelCount, gTrimRan, gTrimLen, gAlloc0, gTmplLo, gTmplHi, gNewRev
 //@   ensures gApiFails >= old(gApiFails) && gWrites >= old(gWrites) && gPodTouch >= old(gPodTouch)
 //@   profile defaulted ensures [C11] deletinghandsoff: set.DeletionTimestamp != nil ==> gPodTouch == old(gPodTouch)
 //@   profile defaulted ensures [C09] podfailuresreported: gCtlFails > old(gCtlFails) ==> result != nil
 //@   profile defaulted ensures [C09] origin: result != nil ==> gCtlFails > old(gCtlFails) || gApiFails > old(gApiFails) || errLocal(result) || errSelector(result)
 //@   profile defaulted ensures [C12] statusonlyafterreconcile: gStatusWrites > old(gStatusWrites) ==> gStatusWrites == old(gStatusWrites) + 1
+//@   ensures [C13] trimmedall: result == nil ==> gTrimRan && gTrimLen == listed
 
 //@ func StatefulSetController.syncStatefulSet
 //@   profiles defaulted, crd
@@ -1065,7 +1072,7 @@ package statefulset
 //@   requires snapphase: forall k int :: {pods[k]} 0 <= k && k < len(pods) ==> isCreatedS(pods[k])
 //@   profile defaulted requires set.Spec.UpdateStrategy.Type == "RollingUpdate" || set.Spec.UpdateStrategy.Type == "OnDelete"
 //@   profile defaulted requires storedvalid: set.Status.ObservedGeneration <= set.Generation
-//@   modifies gApiFails, gWrites, gPodTouch, gCtlFails, gStatusWrites, gRevCreates, gRevUpdates, gRevDeleted, gRevDelCount, gAlloc0, gTmplLo, gTmplHi, gNewRev
+//@   modifies gApiFails, gWrites, gPodTouch, gCtlFails, gStatusWrites, gRevCreates, gRevUpdates, gRevDeleted, gRevDelCount, gTrimRan, gTrimLen, gAlloc0, gTmplLo, gTmplHi, gNewRev
 //@   ensures gApiFails >= old(gApiFails) && gWrites >= old(gWrites) && gPodTouch >= old(gPodTouch)
 //@   profile defaulted ensures [C11] deletinghandsoff: set.DeletionTimestamp != nil ==> gPodTouch == old(gPodTouch)
 //@   profile defaulted ensures [C10] cacheuntouched: true
@@ -1080,7 +1087,7 @@ package statefulset
 //@   free requires crdvalid: forall ns string, name string :: {listerSet(ns, name)} listerSet(ns, name) != nil ==> listerSet(ns, name).Spec.Replicas != nil && deref(listerSet(ns, name).Spec.Replicas) >= 0 && listerSet(ns, name).Spec.RevisionHistoryLimit != nil && deref(listerSet(ns, name).Spec.RevisionHistoryLimit) >= 0 && listerSet(ns, name).Spec.Selector != nil
 //@   free requires sizebound: forall ns string, name string :: {listerSet(ns, name)} listerSet(ns, name) != nil ==> deref(listerSet(ns, name).Spec.Replicas) + card(slotsAnn(ifaceOf(listerSet(ns, name), "*apps.StatefulSet"))) < 1000000000
 //@   profile defaulted free requires defaultedsets: forall ns string, name string :: {listerSet(ns, name)} listerSet(ns, name) != nil ==> (listerSet(ns, name).Spec.UpdateStrategy.Type == "RollingUpdate" || listerSet(ns, name).Spec.UpdateStrategy.Type == "OnDelete") && listerSet(ns, name).Status.ObservedGeneration <= listerSet(ns, name).Generation
-//@   modifies gApiFails, gWrites, gPodTouch, gCtlFails, gStatusWrites, gRevCreates, gRevUpdates, gRevDeleted, gRevDelCount, gAlloc0, gTmplLo, gTmplHi, gNewRev, gRevAdopts, gConfirmed, gPermErr, gAdopts, gReleases, gClaimSrc, gLocalFail
+//@   modifies gApiFails, gWrites, gPodTouch, gCtlFails, gStatusWrites, gRevCreates, gRevUpdates, gRevDeleted, gRevDelCount, gTrimRan, gTrimLen, gAlloc0, gTmplLo, gTmplHi, gNewRev, gRevAdopts, gConfirmed, gPermErr, gAdopts, gReleases, gClaimSrc, gLocalFail
 //@   ensures gApiFails >= old(gApiFails) && gWrites >= old(gWrites) && gPodTouch >= old(gPodTouch)
 //@   profile defaulted ensures [C11] pausednowrite: gSet != nil && pausedS(gSet) ==> gWrites == old(gWrites) && result == nil
 //@   profile defaulted ensures [C11] deletinghandsoff: gSet != nil && gSet.DeletionTimestamp != nil ==> gPodTouch == old(gPodTouch) && gRevAdopts == old(gRevAdopts) && gAdopts == old(gAdopts) && gReleases == old(gReleases)
